@@ -69,6 +69,31 @@ def observe(ns, live, model, kind, rng):
             v.plot()
             v.plot(cumsum=True)
         plt.close("all")
+    elif kind == "plot_simulation":
+        # plotting a value that has a simulated twin draws both: neither the baseline nor the simulated values may change
+        import matplotlib
+        matplotlib.use("Agg")
+        import matplotlib.pyplot as plt
+        from .. import simcheck
+        lo, hi, _last = simcheck.period(ns, live, model)
+        cands = [(n, a) for n in sorted(efx.reachable(model)) for a in model[n]["inp"]]
+        if lo is None or not cands:
+            return []
+        n, a = rng.choice(cands)
+        old = getattr(live[n], a)
+        try:
+            sim = ns.ModelingUpdate([[old, ns.SourceValue(old.value * 2)]], lo.to_pydatetime())
+        except Exception:   # noqa: refused simulations are C05 / C06's subject
+            return []
+        pairs = [(b, s) for b, s in zip(sim.values_to_recompute, sim.recomputed_values)
+                 if isinstance(b, ns.ExplainableHourlyQuantities) and isinstance(s, ns.ExplainableHourlyQuantities)]
+        before = [efx.project_value(ns, s) for _b, s in pairs]
+        for b, _s in pairs[:4] + pairs[-2:]:
+            b.plot()
+            b.plot(cumsum=True)
+        plt.close("all")
+        return [[f"simulated twin of {b.modeling_obj_container.name}.{b.attr_name_in_mod_obj_container}", "<changed by plot>"]
+                for (b, s), v0 in zip(pairs, before) if not efx.values_equal(v0, efx.project_value(ns, s))]
     elif kind == "footprint_views":
         system.total_energy_footprint_sum_over_period
         system.fabrication_footprint_sum_over_period
@@ -77,7 +102,8 @@ def observe(ns, live, model, kind, rng):
         raise ValueError(kind)
 
 
-KINDS = ["str", "explain", "to_json", "system_to_json", "system_to_json_with_calculated", "plot", "footprint_views"]
+KINDS = ["str", "explain", "to_json", "system_to_json", "system_to_json_with_calculated", "plot", "plot_simulation",
+         "footprint_views"]
 
 
 def run(tier, out):
@@ -128,6 +154,19 @@ def run(tier, out):
                     break
             if h.events[-1]["ev"] == "Raised":
                 continue
+            # plotting values that have a simulated twin, while the graph is still the one the edits left
+            names = sorted(efx.reachable(h.model))
+            i0, c0 = input_state(ns, h.live), calc_state(ns, h.live, names)
+            note, extra = "none", []
+            try:
+                extra = observe(ns, h.live, h.model, "plot_simulation", rng) or []
+            except Exception as ex:   # noqa
+                note = f"{type(ex).__name__}: {str(ex)[:80]}"
+            seq += 1
+            events.append({"tid": tid, "seq": seq, "ev": "Observe", "seed": seed, "kind": "plot_simulation", "raised": note,
+                           "inputs_changed": changed_inputs(i0, input_state(ns, h.live)),
+                           "calc_changed": [list(x) for x in efx.diff(c0, calc_state(ns, h.live, names), names)] + extra})
+            kinds_seen["plot_simulation"] = kinds_seen.get("plot_simulation", 0) + 1
             # recomputation requests and observations come after the edits: recomputing one object replaces its
             # value objects, after which its dependents still list the superseded ones (see DESIGN.md section 6) --
             # that is about the graph (C08) and later edits (C01), not about the values C18 talks about
@@ -147,14 +186,15 @@ def run(tier, out):
                 kind = rng.choice(KINDS)
                 i0, c0 = input_state(ns, h.live), calc_state(ns, h.live, names)
                 note = "none"
+                extra = []
                 try:
-                    observe(ns, h.live, h.model, kind, rng)
+                    extra = observe(ns, h.live, h.model, kind, rng) or []
                 except Exception as ex:   # noqa: an observation that raises is noted, the state is still compared
                     note = f"{type(ex).__name__}: {str(ex)[:80]}"
                 seq += 1
                 events.append({"tid": tid, "seq": seq, "ev": "Observe", "seed": seed, "kind": kind, "raised": note,
                                "inputs_changed": changed_inputs(i0, input_state(ns, h.live)),
-                               "calc_changed": [list(x) for x in efx.diff(c0, calc_state(ns, h.live, names), names)]})
+                               "calc_changed": [list(x) for x in efx.diff(c0, calc_state(ns, h.live, names), names)] + extra})
                 kinds_seen[kind] = kinds_seen.get(kind, 0) + 1
                 out.nontrivial.add((seed, seq))
             # each update function run on its own: it may not alter any other value (its operands in particular)
